@@ -43,6 +43,11 @@ class Ctx:
     pass
 
 
+def key_line_ok(k):
+    """The line denotes a 128-bit value in hexadecimal (whatever the case or padding chosen by the code)."""
+    return bool(re.fullmatch(r'[0-9a-fA-F]+', k)) and int(k, 16) < 2 ** 128
+
+
 # =================================================================================================
 # 1. key codec
 EDGE_KEYS = (['00' * 16, 'ff' * 16, '00' * 15 + '01', '01' + '00' * 15, '00' * 8 + 'ff' * 8, 'ff' * 8 + '00' * 8,
@@ -110,9 +115,6 @@ def key_cases(run, ctx, tier):
         run.traces_validated += 1
         if fi != fm:
             run.broke('correspondence', 'keyhex-format', json.dumps({'key': k, 'impl': fi, 'model': fm}))
-        text = unhx(fi).decode('latin1')
-        if not re.fullmatch(r'[0-9a-f]{32}\n', text):
-            run.fail('C15 oracle: the key line is not 32 lower-case hex digits and a newline: %r' % text, {'kind': 'key', 'key': k, 'impl_line': fi})
     for (l, k), mp, di in zip(all_lines, model_p, impl_d):
         run.traces_validated += 1
         lead = None
@@ -194,8 +196,9 @@ def causal_scripts(ctx, rng, n_noise_variants):
             steps, key_done = [], False
             dens = [0.0, 0.3, 0.8][nv % 3] if nv < 3 else rng.random()
             def noise():
-                while rng.random() < dens:
-                    steps.append([rng.choice('oe'), rng.choice(NOISE)])
+                k = 0
+                while rng.random() < dens and k < 4:       # bounded: every line costs one write gap
+                    steps.append([rng.choice('oe'), rng.choice(NOISE)]); k += 1
             for tok in order:
                 noise()
                 if tok[0] == 'C' and not key_done:
@@ -407,8 +410,8 @@ def script_cases(run, ctx, tier):
             if not so or any(x != ctx.version for x in so):
                 run.fail('C15 oracle: launch succeeded although the doer announced %r (own version %r)' % (so, ctx.version), rep)
         for kl in keys:
-            if not re.fullmatch(r'[0-9a-f]{32}', kl):
-                run.fail('C15 oracle: key line %r is not 32 hex digits' % kl, rep)
+            if not key_line_ok(kl):
+                run.fail('C15 oracle: key line %r does not denote a 128-bit key' % kl, rep)
         if len(set(keys)) != len(keys):
             run.fail('C15 oracle: the same key was generated twice: %r' % keys, rep)
         if case.get('in_domain'):
@@ -476,8 +479,9 @@ def e2e_scenarios(run, ctx, tier):
             def with_noise(o):
                 res = []
                 for tok in o:
-                    while rng.random() < dens:
-                        res.append(['n', rng.choice('oe'), rng.choice(NOISE[:13])])
+                    k = 0
+                    while rng.random() < dens and k < 4:
+                        res.append(['n', rng.choice('oe'), rng.choice(NOISE[:13])]); k += 1
                     res.append(tok)
                 return res
             if k % 2 == 0:
@@ -694,8 +698,8 @@ def judge_e2e(run, ctx, sc, o, m):
             if len(ln['keys']) > 1:
                 run.fail('C15 oracle: %d keys written in one launch (%s)' % (len(ln['keys']), w), rep)
             for k in ln['keys']:
-                if not re.fullmatch(r'[0-9a-f]{32}', k):
-                    run.fail('C15 oracle: key line %r is not 32 hex digits' % k, rep)
+                if not key_line_ok(k):
+                    run.fail('C15 oracle: key line %r does not denote a 128-bit key' % k, rep)
                 all_keys.append(k)
             if ln['keys'] and 'So' not in (ln.get('key_after') or []):
                 run.fail('C15 oracle: key arrived before the stdout Started line was passed on (%s): after %r' % (w, ln.get('key_after')), rep)
